@@ -1114,3 +1114,99 @@ Proof.
     | |- negb (is_ok (infer_type ?X)) = false => change (infer_type X) with (infer_type (set_type X))
     end; rewrite H; reflexivity.
 Qed.
+
+(* ------------------------------------------------------------------------------------------ *)
+(** * prefsampling_ordinal_wrapper: from the sampler's rows to the vote map *)
+
+Lemma tbl_profile_perm os m ms :
+  tbl os m ms -> Permutation (flat_map (fun o => repeat o (N.to_nat (mget m o))) os) ms.
+Proof.
+  intro T. apply (Permutation_count_occ order_eq_dec). intro o.
+  rewrite (count_flat_repeat (fun x => N.to_nat (mget m x))).
+  rewrite (tbl_mget _ _ _ o T). unfold cnt. rewrite Nat2N.id.
+  destruct (in_dec order_eq_dec o os) as [Hin|Hnin].
+  - assert (Hn : NoDup os) by (destruct T as (Hn & -> & _); exact Hn).
+    rewrite (proj1 (NoDup_count_occ' order_eq_dec os) Hn o Hin). lia.
+  - assert (Hm : ~ In o ms) by (rewrite <- (tbl_in _ _ _ o T); exact Hnin).
+    apply (count_occ_not_In order_eq_dec) in Hm. rewrite Hm. lia.
+Qed.
+
+Lemma tbl_expand_perm os m ms : tbl os m ms -> Permutation (expand m) ms.
+Proof.
+  intro T. pose proof (tbl_profile_perm os m ms T) as P. destruct T as (Hn & -> & _).
+  unfold expand. rewrite <- (vote_map_keys m Hn) at 1.
+  rewrite flat_map_concat_map, map_map. simpl. rewrite <- flat_map_concat_map. exact P.
+Qed.
+
+Lemma lookup_in m o k : NoDup (map fst m) -> In (o, k) m -> lookup m o = Some k.
+Proof.
+  induction m as [|[o' k'] m IH]; simpl; intros Hn Hin; [contradiction|].
+  inversion Hn as [|? ? Hnin Hn']; subst. destruct Hin as [E|Hin].
+  - injection E as -> ->. now rewrite order_eqb_refl.
+  - rewrite order_eqb_neq; [now apply IH|]. intros ->. apply Hnin. apply in_map_iff. now exists (o, k).
+Qed.
+
+Lemma wrapper_tbl_gen rows : forall vm ms,
+  tbl (map fst vm) vm ms ->
+  tbl (map fst (fold_left (fun vm r => bump vm (strictify r)) rows vm))
+      (fold_left (fun vm r => bump vm (strictify r)) rows vm) (ms ++ map strictify rows).
+Proof.
+  induction rows as [|r rows IH]; intros vm ms T; simpl.
+  - now rewrite app_nil_r.
+  - assert (H1 : (1 <= 1)%N) by lia.
+    pose proof (tbl_add _ _ _ (strictify r) 1%N T H1) as TA.
+    assert (T' : tbl (map fst (bump vm (strictify r))) (bump vm (strictify r)) (ms ++ [strictify r])).
+    { unfold bump. destruct (has_key vm (strictify r)).
+      - destruct TA as (A & B & C). split; [assumption|]. split; [reflexivity | exact C].
+      - destruct TA as (A & B & C). split; [assumption|]. split; [reflexivity | exact C]. }
+    specialize (IH _ _ T'). rewrite <- app_assoc in IH. exact IH.
+Qed.
+
+Lemma wrapper_tbl rows : tbl (map fst (wrapper rows)) (wrapper rows) (map strictify rows).
+Proof. exact (wrapper_tbl_gen rows [] [] tbl_nil). Qed.
+
+(** the rows a ranking sampler returns: non-empty duplicate-free rankings *)
+Definition sampler_rows (rows : list (list N)) : Prop := Forall (fun r => r <> [] /\ NoDup r) rows.
+
+Lemma wrapper_spec rows :
+  sampler_rows rows ->
+  NoDup (map fst (wrapper rows)) /\
+  (forall o, lookup (wrapper rows) o = cnt_opt (map strictify rows) o) /\
+  Permutation (expand (wrapper rows)) (map strictify rows) /\
+  sampler_output (wrapper rows).
+Proof.
+  intro R. pose proof (wrapper_tbl rows) as T. pose proof T as (Hn & _ & L).
+  split; [assumption|]. split; [assumption|]. split; [exact (tbl_expand_perm _ _ _ T)|].
+  apply Forall_forall. intros [o k] Hin. simpl. split.
+  - assert (Ho : In o (map strictify rows)).
+    { apply (tbl_in _ _ _ o T). apply in_map_iff. now exists (o, k). }
+    apply in_map_iff in Ho. destruct Ho as [r [<- Hr]]. exists r. split; [reflexivity|].
+    unfold sampler_rows in R. rewrite Forall_forall in R. exact (R r Hr).
+  - pose proof (lookup_in _ _ _ Hn Hin) as E. rewrite L in E. unfold cnt_opt in E.
+    destruct (N.eqb_spec (cnt (map strictify rows) o) 0); [discriminate|]. injection E as <-. lia.
+Qed.
+
+(** the invariant speaks about the multiset of votes: it is stable under permutation of [ms] *)
+Lemma Inv_perm s ms ms' : Inv s ms -> Permutation ms ms' -> Inv s ms'.
+Proof.
+  intros [(T1 & T2 & T3) V U (A1 & A2 & A3) NA W Ty] P. constructor; try assumption.
+  - split; [assumption|]. split; [assumption|]. intro o. rewrite T3. unfold cnt_opt.
+    now rewrite (cnt_perm ms ms' o P).
+  - rewrite V. f_equal. now apply Permutation_length.
+  - split; [assumption|]. split; [|assumption]. intro a. rewrite A2.
+    split; [apply in_cc_perm; assumption | apply in_cc_perm; now apply Permutation_sym].
+  - eapply Permutation_Forall; eassumption.
+Qed.
+
+Lemma populate_rows ops rows :
+  wf_ops ops -> sampler_rows rows ->
+  wf_op (AppendVoteMap (wrapper rows)) /\
+  Inv (run (ops ++ [AppendVoteMap (wrapper rows)])) (votes_of ops ++ map strictify rows).
+Proof.
+  intros Wf R. destruct (wrapper_spec rows R) as (_ & _ & P & S).
+  pose proof (sampler_wf _ S) as Wv. split; [assumption|].
+  apply (Inv_perm _ (votes_of ops ++ expand (wrapper rows))).
+  - unfold run. rewrite fold_left_app. simpl.
+    apply (step_Inv _ _ (AppendVoteMap (wrapper rows)) (reachable ops Wf) Wv).
+  - now apply Permutation_app_head.
+Qed.
